@@ -130,12 +130,13 @@ def pool_events(lines):
             e["nw"] = sorted(w for w, v in nxr.items() if v)
     return out
 
-def spec_walks(n, outdir, seed=1):
-    """specification -> implementation: TLC simulates mech/MsgQueue (MC_MsgQueueWalk), the driver steps
-    every behaviour through the real server and compares the abstract state after each action"""
+def spec_walks(n, outdir, seed=1, kind="queue"):
+    """specification -> implementation: TLC simulates the mechanism spec (MC_MsgQueueWalk / MC_TaskPoolWalk), the driver
+    steps every behaviour through the real server and compares the abstract state after each action"""
     os.makedirs(outdir, exist_ok=True)
-    rc, out, wall = vlib.tlc("walkgen", "MsgQueue_walk.cfg", "MC_MsgQueueWalk.tla", os.path.join(vlib.SPECS, "mc"), workers=1, timeout=600,
-                             extra=["-simulate", "num=%d" % n, "-depth", "45", "-seed", str(seed)], java_opts="-Xmx3g -Xss64m")
+    cfg, mod = ("MsgQueue_walk.cfg", "MC_MsgQueueWalk.tla") if kind == "queue" else ("TaskPool_walk.cfg", "MC_TaskPoolWalk.tla")
+    rc, out, wall = vlib.tlc("walkgen", cfg, mod, os.path.join(vlib.SPECS, "mc"), workers=1, timeout=600,
+                             extra=["-simulate", "num=%d" % n, "-depth", "45" if kind == "queue" else "50", "-seed", str(seed)], java_opts="-Xmx3g -Xss64m")
     wp = os.path.join(outdir, "walks.ndjson")
     k = 0
     with open(wp, "w") as f:
@@ -147,16 +148,27 @@ def spec_walks(n, outdir, seed=1):
     if k == 0:
         raise vlib.ToolError("TLC produced no walks:\n" + out[-1500:])
     op = os.path.join(outdir, "walks.out")
-    rc, o = vlib.sh([vlib.D1, "walk", "--walks", wp, "--out", op], timeout=900)
-    m = re.search(r"DONE walks=(\d+) conform=(\d+) steps=(\d+)", o)
-    if rc != 0 or not m:
-        raise vlib.ToolError("walk driver failed: " + o[-1500:])
+    skip = 0
+    conform = steps = 0
     div = []
-    for line in open(op):
-        r = json.loads(line)
-        if not r["ok"]:
-            div.append(r)
-    return {"behaviours_generated_by_tlc": k, "actions_executed_on_the_real_code": int(m.group(3)), "conform": int(m.group(2)),
+    for attempt in range(200):
+        part = op + ".%d" % attempt
+        rc, o = vlib.sh([vlib.D1, "walk", "--kind", kind, "--walks", wp, "--out", part, "--skip", str(skip)], timeout=1800)
+        m = re.search(r"(DONE|PARTIAL next_skip=(\d+)) walks=(\d+) conform=(\d+) steps=(\d+)", o)
+        if rc not in (0, 3) or not m:
+            raise vlib.ToolError("walk driver failed: " + o[-1500:])
+        conform += int(m.group(4))
+        steps += int(m.group(5))
+        for line in open(part):
+            r = json.loads(line)
+            if not r["ok"]:
+                div.append(r)
+        if m.group(1) == "DONE":
+            break
+        skip = int(m.group(2))
+    else:
+        raise vlib.ToolError("walk driver did not finish")
+    return {"behaviours_generated_by_tlc": k, "actions_executed_on_the_real_code": steps, "conform": conform,
             "divergences": div[:10], "n_divergences": len(div), "tlc_wall_s": round(wall, 1)}
 
 
